@@ -26,7 +26,7 @@ def jobs(tier, seed):
         for rel in ['gt', 'le']:
             add('single/%s/log=1/n2/dense/B1/bounds=both' % rel, 'make_single', dict(rel=rel, B=1, log=True, bmode='both', n=2, shape='dense', bb=3), 300)
         add('single/gt/log=1/n2/dense/B1/bounds=hi', 'make_single', dict(rel='gt', B=1, log=True, bmode='hi', n=2, shape='dense', bb=3), 300)
-        add('single/eq/log=1/n3/lin+pair/B1', 'make_single', dict(rel='eq', B=1, log=True, bmode='none', n=3, shape='lin+pair'), 300)
+        add('single/eq/log=1/n3/lin+pair/B1+2', 'make_single', dict(rel='eq', B=1, log=True, bmode='none', n=3, shape='lin+pair', Bbig=2), 400)
         for rel, seq in [('le', ['ne_diff']), ('ne', ['le_sum']), ('gt', ['eq_diff'])]:
             add('seq/%s+%s/B1' % (rel, '+'.join(seq)), 'make_sequence', dict(rel=rel, B=1, log=True, seq=seq), 300)
     else:
